@@ -127,8 +127,15 @@ def _inplace_only(fn: ast.FunctionDef, p: str) -> bool:
 def _shape(fn: ast.FunctionDef) -> str | None:
     """'expr' | 'tail' | None."""
     a = fn.args
-    if a.vararg or a.kwarg or a.posonlyargs and False:
+    if a.kwarg:
         return None
+    if a.vararg is not None:
+        # *args is bound to the tuple of the extra positional arguments; the
+        # helper may only read it
+        for n in ast.walk(fn):
+            if isinstance(n, ast.Name) and n.id == a.vararg.arg and \
+                    not isinstance(n.ctx, ast.Load):
+                return None
     for n in ast.walk(fn):
         if isinstance(n, (ast.Yield, ast.YieldFrom, ast.Await, ast.Global,
                           ast.Nonlocal)):
@@ -287,7 +294,13 @@ class Inliner:
                 exprs[params[0]] = recv
             params = params[1:]
         if len(args) > len(params):
-            raise NotInlinable("too many positional arguments")
+            if a.vararg is None:
+                raise NotInlinable("too many positional arguments")
+            exprs[a.vararg.arg] = ast.Tuple(
+                elts=list(args[len(params):]), ctx=ast.Load())
+            args = args[:len(params)]
+        elif a.vararg is not None:
+            exprs[a.vararg.arg] = ast.Tuple(elts=[], ctx=ast.Load())
         for p, x in zip(params, args):
             exprs[p] = x
         for k in call.keywords:
@@ -638,6 +651,36 @@ class _LiteralComp(ast.NodeTransformer):
                 return ast.copy_location(ast.List(
                     [_Rename({g.target.id: e}).visit(clone(node.elt))
                      for e in g.iter.elts], ast.Load()), node)
+        return node
+
+
+    def visit_Call(self, node):
+        """all(p(x) for x in (a, b)) -> p(a) and p(b); any(...) -> or.  Only
+        for boolean-valued elements (comparisons, not, isinstance), so the
+        value and the left-to-right short circuit are the same."""
+        self.generic_visit(node)
+        from .core import _Rename
+        if isinstance(node.func, ast.Name) and node.func.id in ("all", "any") \
+                and len(node.args) == 1 and not node.keywords and isinstance(
+                node.args[0], (ast.GeneratorExp, ast.ListComp)) and \
+                len(node.args[0].generators) == 1:
+            g = node.args[0].generators[0]
+            elt = node.args[0].elt
+            boolean = isinstance(elt, ast.Compare) or (
+                isinstance(elt, ast.UnaryOp) and isinstance(elt.op, ast.Not)) \
+                or (isinstance(elt, ast.Call) and isinstance(
+                    elt.func, ast.Name) and elt.func.id == "isinstance")
+            if boolean and not g.ifs and not g.is_async and isinstance(
+                    g.iter, (ast.Tuple, ast.List)) and isinstance(
+                    g.target, ast.Name) and 1 <= len(g.iter.elts) <= 8 and \
+                    not any(isinstance(e, ast.Starred) for e in g.iter.elts):
+                vals = [_Rename({g.target.id: e}).visit(clone(elt))
+                        for e in g.iter.elts]
+                self.changed = True
+                if len(vals) == 1:
+                    return ast.copy_location(vals[0], node)
+                op = ast.And() if node.func.id == "all" else ast.Or()
+                return ast.copy_location(ast.BoolOp(op=op, values=vals), node)
         return node
 
 
@@ -1395,6 +1438,119 @@ def canonicalise(func: ast.FunctionDef, selfname: str | None = None,
     return new, ch
 
 
+def _new_level_names(prog, keep: set[str]) -> dict[str, ast.AST | None]:
+    """Module / class level names outside the inventory -> their value node
+    when it is a literal of constants that nothing in the module mutates
+    (tuple / frozenset / dict / list of constants and names of classes or
+    functions), else None."""
+    out: dict[str, ast.AST | None] = {}
+    for mname, mod in prog.modules.items():
+        level = [(None, st) for st in mod.tree.body]
+        for st in mod.tree.body:
+            if isinstance(st, ast.ClassDef):
+                level += [(st.name, s2) for s2 in st.body]
+        for cname, st in level:
+            tgt = val = None
+            if isinstance(st, ast.Assign) and len(st.targets) == 1 and \
+                    isinstance(st.targets[0], ast.Name):
+                tgt, val = st.targets[0].id, st.value
+            elif isinstance(st, ast.AnnAssign) and isinstance(
+                    st.target, ast.Name) and st.value is not None:
+                tgt, val = st.target.id, st.value
+            if tgt is None or tgt.startswith("__"):
+                continue
+            q = f"{mname}:={cname + '.' if cname else ''}{tgt}"
+            if q in keep:
+                continue
+            out[q] = val if _literal_table(val) and not _mutated(
+                mod.tree, tgt) else None
+    return out
+
+
+def _literal_table(v: ast.AST, depth: int = 0) -> bool:
+    if depth > 4:
+        return False
+    if isinstance(v, ast.Constant):
+        return True
+    if isinstance(v, (ast.Tuple, ast.List, ast.Set)):
+        return all(_literal_table(e, depth + 1) for e in v.elts)
+    if isinstance(v, ast.Dict):
+        return all(k is not None and _literal_table(k, depth + 1)
+                   and _literal_table(x, depth + 1)
+                   for k, x in zip(v.keys, v.values))
+    if isinstance(v, ast.UnaryOp) and isinstance(v.op, (ast.USub, ast.UAdd)):
+        return _literal_table(v.operand, depth + 1)
+    if isinstance(v, (ast.Name, ast.Attribute)):
+        return dotted(v) is not None        # class / function / enum member
+    if isinstance(v, ast.Call) and dotted(v.func) in (
+            "frozenset", "tuple", "MappingProxyType",
+            "types.MappingProxyType") and len(v.args) == 1 and \
+            not v.keywords:
+        return _literal_table(v.args[0], depth + 1)
+    return False
+
+
+def _mutated(tree: ast.AST, name: str) -> bool:
+    for n in ast.walk(tree):
+        if isinstance(n, (ast.Subscript, ast.Attribute)) and isinstance(
+                n.ctx, (ast.Store, ast.Del)):
+            base = n.value
+            if (isinstance(base, ast.Name) and base.id == name) or (
+                    isinstance(base, ast.Attribute) and base.attr == name):
+                return True
+        if isinstance(n, ast.Call) and isinstance(n.func, ast.Attribute) and \
+                n.func.attr in MUTATORS | {"sort", "reverse"}:
+            base = n.func.value
+            if (isinstance(base, ast.Name) and base.id == name) or (
+                    isinstance(base, ast.Attribute) and base.attr == name):
+                return True
+    return False
+
+
+def _inline_literal_tables(fi: FuncInfo, tables: dict[str, ast.AST]
+                           ) -> ast.FunctionDef | None:
+    """Reads of new literal tables (module level by name, class level through
+    self / cls / the class name) are replaced by the literal."""
+    mname = fi.module.name
+    by_name = {q.split(":=")[1]: v for q, v in tables.items()
+               if q.startswith(mname + ":=") and "." not in q.split(":=")[1]}
+    by_attr = {q.split(":=")[1].split(".")[1]: (q.split(":=")[1].split(".")[0],
+                                                v)
+               for q, v in tables.items() if "." in q.split(":=")[1]}
+    if not by_name and not by_attr:
+        return None
+    local = {n.id for n in ast.walk(fi.node) if isinstance(n, ast.Name)
+             and isinstance(n.ctx, (ast.Store, ast.Del))} | set(fi.params())
+    changed = [False]
+    recv_ok = set(fi.params()[:1])
+
+    class T(ast.NodeTransformer):
+        def visit_Name(self, node):
+            if isinstance(node.ctx, ast.Load) and node.id in by_name and \
+                    node.id not in local:
+                changed[0] = True
+                return ast.copy_location(clone(by_name[node.id]), node)
+            return node
+
+        def visit_Attribute(self, node):
+            self.generic_visit(node)
+            if isinstance(node.ctx, ast.Load) and node.attr in by_attr and \
+                    isinstance(node.value, ast.Name):
+                cname, v = by_attr[node.attr]
+                if node.value.id in recv_ok or node.value.id == cname or \
+                        node.value.id == "cls":
+                    changed[0] = True
+                    return ast.copy_location(clone(v), node)
+            return node
+
+    new = T().visit(clone(fi.node))
+    if not changed[0]:
+        return None
+    ast.fix_missing_locations(new)
+    set_parents(new)
+    return new
+
+
 def _rebinders(prog) -> dict[str, set[str]]:
     """method name -> attributes of self that a method of that name (in any
     class) re-binds, directly or through the self/super calls it makes."""
@@ -1499,19 +1655,31 @@ def normalise_program(prog, *, inline: bool = True,
     keep = baseline()
     inl = Inliner(prog, keep)
     report = {"inlined": [], "unrolled": [], "new_functions": [],
-              "canonicalised": []}
+              "canonicalised": [], "new_names": [], "tables_inlined": []}
     quals = list(prog.functions)
     report["new_functions"] = sorted(q for q in quals if q not in keep)
+    new_tables = _new_level_names(prog, keep)
+    report["new_names"] = sorted(q for q, lit in new_tables.items()
+                                 if lit is None)
+    literal_tables = {q: lit for q, lit in new_tables.items()
+                      if lit is not None}
+    report["tables_inlined"] = sorted(literal_tables)
     # inline bottom-up enough: MAX_ROUNDS rounds per function cover nesting
-    replacements: dict[str, ast.FunctionDef] = {}
+    originals = {q: prog.functions[q].node for q in quals}
+    touched: set[str] = set()
     rebinders = _rebinders(prog) if canonical else {}
     all_slots: set[str] = set()
     for ci in prog.classes.values():
         all_slots |= set(ci.slots or ())
     view_props = _view_properties(prog) if canonical else {}
-    for q in quals:
+    def process(q):
         fi = prog.functions[q]
         node = fi.node
+        if literal_tables:
+            t_new = _inline_literal_tables(fi, literal_tables)
+            if t_new is not None:
+                fi.node = node = t_new
+                touched.add(q)
         new = inl.run(fi) if inline and report["new_functions"] else None
         if new is not None:
             node = new
@@ -1519,7 +1687,8 @@ def normalise_program(prog, *, inline: bool = True,
             u, ch = unroll(node)
             if ch:
                 node = u
-                report["unrolled"].append(q)
+                if q not in report["unrolled"]:
+                    report["unrolled"].append(q)
         if canonical:
             selfname, vprops = None, set()
             if fi.cls is not None and not fi.is_staticmethod() and \
@@ -1533,12 +1702,15 @@ def normalise_program(prog, *, inline: bool = True,
                                  vprops)
             if ch:
                 node = u
-                report["canonicalised"].append(q)
-        if node is not fi.node:
-            replacements[q] = node
-    for q, node in replacements.items():
+                if q not in report["canonicalised"]:
+                    report["canonicalised"].append(q)
+        if node is not originals.get(q, fi.node) or q in touched:
+            return node
+        return None
+
+    def install(q, node):
         fi = prog.functions[q]
-        old = fi.node
+        old = originals[q]
         par = getattr(old, "_parent", None)
         if par is not None:
             for f in ("body", "orelse", "finalbody"):
@@ -1549,5 +1721,24 @@ def normalise_program(prog, *, inline: bool = True,
                             lst[i] = node
             node._parent = par
         fi.node = node
+        originals[q] = node
+
+    # helpers outside the inventory first, and installed at once: a helper
+    # whose canonical form is a single return expression can then be inlined
+    # at expression positions of its callers
+    first = [q for q in quals if q not in keep]
+    for q in first:
+        node = process(q)
+        if node is not None:
+            install(q, node)
+    replacements: dict[str, ast.FunctionDef] = {}
+    for q in quals:
+        if q in first:
+            continue
+        node = process(q)
+        if node is not None:
+            replacements[q] = node
+    for q, node in replacements.items():
+        install(q, node)
     report["inlined"] = sorted(set(inl.inlined))
     return report
